@@ -78,6 +78,9 @@ ObsCands == R.hascands = 1 =>
 ObsFastGE == (R.mode = "partition" /\ R.fastbest >= 0) => AlCost(I, Al) >= R.fastbest - R.tol * (NT + 1)
 ObsFastEq == (R.mode = "partition" /\ R.fastbest >= 0 /\ R.covering = 1) => Near(AlCost(I, Al), R.fastbest, R.tol * (NT + 1))
 
+\* the same instance aligned under the other MIP back-end has the same optimal cost (also for instances too large for the search)
+ObsBackendsAgree == R.othercost >= 0 => Near(AlCost(I, Al), R.othercost, R.tol * (NT + 1))
+
 ObsBackend == R.backend = R.wantbackend
 ObsModelOpt == R.modelopt >= 0 => Near(AlCost(I, Al), R.modelopt, R.tol * NT)      \* TLC's own optimum for a TLC-generated instance
 
@@ -126,6 +129,7 @@ Verdicts ==
         /\ Judge("ObsOrderFree", ObsOrderFree)
         /\ Judge("ObsCands", ObsCands)
         /\ Judge("ObsBackend", ObsBackend)
+        /\ Judge("ObsBackendsAgree", ObsBackendsAgree)
         /\ Judge("ObsModelOpt", ObsModelOpt)
     /\ Judge("NoCheaper", NoCheaper)
 =============================================================================
